@@ -9,11 +9,51 @@ mp.prec = 320
 def val(bits, f):
     return ldexp(mpf(bits), -f)
 
+def tdiv(a, b):
+    q = abs(a) // abs(b)
+    return q if (a < 0) == (b < 0) else -q
+
+def powi_neg_clause(lines):
+    """C15: `powi(x, n)` for n < 0 equals the truncated reciprocal of the implementation's own `powi(x, |n|)` (Err when that is Err, zero, or the
+    reciprocal does not fit).  Judged exactly, on pairs of answers of the implementation (the generator issues the twin request)."""
+    ans = {}
+    for line in lines:
+        if not line.startswith('t_powi ') or ' => ' not in line:
+            continue
+        req, a = line.split(' => ')
+        p = req.split(' ')
+        ans[(p[1], p[2], p[3], p[4], p[5], p[6], p[7], int(p[8]))] = (a, line)
+    out = []
+    for key, (a, line) in ans.items():
+        nn = key[7]
+        if nn >= 0 or a in ('P', 'SKIP') or (key[:7] + (-nn,)) not in ans or int(key[3]) == 0:
+            continue
+        b = ans[key[:7] + (-nn,)][0]
+        if b in ('P', 'SKIP'):
+            continue
+        sd, nd, fd = int(key[4]), int(key[5]), int(key[6])
+        lo, hi = (-(1 << (nd - 1)), (1 << (nd - 1)) - 1) if sd else (0, (1 << nd) - 1)
+        if b.startswith('E'):
+            exp = 'E'
+        else:
+            r1 = int(b.split(';')[0][2:])
+            if r1 == 0:
+                exp = 'E'
+            else:
+                q = tdiv(1 << (2 * fd), r1)
+                exp = f'O:{q}' if lo <= q <= hi else 'E'
+        got = 'E' if a.startswith('E') else a.split(';')[0]
+        if got != exp:
+            out.append(f'ORACLE {line} err=powi_negative_is_not_the_truncated_reciprocal_of_{b.split(";")[0]} bound={exp}')
+    return out
+
 def main():
     n = 0; fails = 0
     worst = {}
-    for line in sys.stdin:
-        line = line.strip()
+    all_lines = [l.strip() for l in sys.stdin]
+    for o in powi_neg_clause(all_lines):
+        print(o); fails += 1
+    for line in all_lines:
         if ' => ' not in line:
             continue
         req, ans = line.split(' => ')
